@@ -71,7 +71,7 @@ class C03(Prop):
                                           pos=st.integers(0, 10 ** 6), byte=st.sampled_from(list(EDIT_ALPHABET))))
         klass = st.fixed_dictionaries(dict(common, kind=st.just("class"), cls=st.sampled_from(CLASSES),
                                            which=st.integers(0, 63), node=st.integers(0, 10 ** 6)))
-        deep = st.fixed_dictionaries({"kind": st.just("deep"), "open": st.sampled_from(["[", '{"a":', '[{"a":']),
+        deep = st.fixed_dictionaries({"kind": st.just("deep"), "open": st.sampled_from(["[", '{"a":', '[{"a":', "[[],", '{"e":{},"a":', "[{},[],", '{"e":[],"a":[', "[1,"]),
                                       "rel": st.sampled_from([1, 1, 2, 3, 10, 1000, 99000, 999000]),
                                       "closed": st.booleans()})
         return st.one_of(edit, edit, edit, klass, klass, klass, klass, deep)
@@ -174,14 +174,14 @@ class C03(Prop):
         if kind == "deep":
             depth = lib.nesting_limit + case["rel"]
             opener = case["open"].encode()
-            per = opener.count(b"[") + opener.count(b"{")
+            from .c01 import net_depth, closer_of
+            per = net_depth(opener)
             reps = (depth + per - 1) // per if per > 1 else depth
             if reps * per <= lib.nesting_limit:
                 reps += 1
             text = opener * reps
             if case["closed"]:
-                closer = b"".join({b"[": b"]", b"{": b"}"}.get(bytes([c]), b"") for c in reversed(opener))
-                text += b"1" + closer * reps
+                text += b"1" + closer_of(opener) * reps
             rc = lib.classify(text)
             stats.cls("depth_over_limit")
             if rc.cls != RC_INVALID:
